@@ -89,7 +89,7 @@ impl Program {
 
     pub fn link(&mut self) -> (Address, Arc<Vec<Error>>, Arc<Vec<Error>>) {
         match self.link.last() {
-            Some(Opcode::End) => {}
+            Some(Opcode::End) if self.direct_address != 0 || !self.link.ends_with_symbol() => {}
             _ => {
                 if let Err(error) = self.link.push(Opcode::End) {
                     Arc::make_mut(&mut self.errors).push(error);
